@@ -105,6 +105,7 @@ pub struct Known {
 #[derive(Clone)]
 pub struct ExploreCfg {
     pub property: String,
+    pub tier: String,
     pub depth: usize,
     pub threads: usize,
     pub max_states: u64,
@@ -329,12 +330,18 @@ pub fn explore<S: Scenario>(scn: &S, cfg: &ExploreCfg) -> Report {
                                 scn.invariants(&mut w, &handles, &g, &mut cx);
                                 transitions.fetch_add(1, Ordering::Relaxed);
                                 merge_counters(&mut local_counters, &cx.counters);
-                                let tainted = !cx.violations.is_empty();
-                                if tainted {
+                                // violations matching a known finding are counted and do not prune
+                                // the search; anything else is a new violation
+                                let mut tainted = false;
+                                if !cx.violations.is_empty() {
                                     let aj = serde_json::to_string(a).unwrap();
-                                    let mut f = found.lock().unwrap();
                                     for v in cx.violations {
-                                        f.push((node.fp, aj.clone(), v));
+                                        if let Some(k) = cfg.known.iter().find(|k| k.oracle == v.oracle && (k.sig == v.sig || k.sig == "*")) {
+                                            *local_counters.entry(format!("known:{}", k.id)).or_insert(0) += 1;
+                                        } else {
+                                            tainted = true;
+                                            found.lock().unwrap().push((node.fp, aj.clone(), v));
+                                        }
                                     }
                                 }
                                 let snap = w.snapshot();
@@ -424,6 +431,14 @@ pub fn explore<S: Scenario>(scn: &S, cfg: &ExploreCfg) -> Report {
         }
         let _ = interner.len();
     }
+    let known_keys: Vec<String> = rep.counters.keys().filter(|k| k.starts_with("known:")).cloned().collect();
+    for key in known_keys {
+        let n = rep.counters.remove(&key).unwrap_or(0);
+        let id = key["known:".len()..].to_string();
+        let what = cfg.known.iter().find(|k| k.id == id).map(|k| k.what.clone()).unwrap_or_default();
+        let e = rep.known_hits.entry(id).or_insert((0, what));
+        e.0 += n;
+    }
     rep.wall_s = t0.elapsed().as_secs_f64();
     rep
 }
@@ -461,6 +476,7 @@ fn handle_violation<S: Scenario>(
     );
     let doc = json!({
         "property": cfg.property,
+        "tier": cfg.tier,
         "kind": "trace",
         "scenario": scn.name(),
         "root": root,
@@ -794,6 +810,7 @@ pub fn default_cfg(property: &str, tier: &str, seed: u64, depth: usize) -> Explo
         .unwrap_or_else(|| std::thread::available_parallelism().map(|n| n.get()).unwrap_or(8));
     ExploreCfg {
         property: property.to_string(),
+        tier: tier.to_string(),
         depth,
         threads,
         max_states: if tier == "quick" { 3_000_000 } else { 40_000_000 },
